@@ -110,17 +110,31 @@ def run(ctx):
     CLOCKS = ("wtime", "btime", "winc", "binc")
     players = sorted({t for t in (hir.subterms(V) if V is not None else ()) if t and ((t[:2] == ("call", "chess::Game::player")) or (t[0] == "field" and t[-1] == "current_player"))}, key=str)
 
-    def case(given, side):
+    def case(given, side, infinite=False):
         a = {}
         for nm in CLOCKS + ("move_time",):
-            a[("var", nm)] = ("ctor", SOME, (("var", nm.upper()),)) if nm in given else NONE
+            # the parameter as a local, or as a field of an options struct filled by the parsing loop (`?name`)
+            a[("var", nm)] = a[("var", "?" + nm)] = ("ctor", SOME, (("var", nm.upper()),)) if nm in given else NONE
+        a[("var", "infinite")] = a[("var", "?infinite")] = ("lit", infinite)
         for p_ in players:
             a[p_] = ("variant", "chess::Player::" + side)
-        return hir.fold(V, a)
+        v = hir.fold(V, a)
+        return hir.fold(v, a)
+
+    margin_in_budget = [False]
 
     def millis(v):
-        if v[0] == "ctor" and str(v[1]).endswith("Some") and v[2][0][0] == "call" and str(v[2][0][1]).endswith("Duration::from_millis"):
-            return v[2][0][2][0]
+        """X of Some(Duration::from_millis(X)), also when the constant safety margin is already taken off:
+        Some(from_millis(X).saturating_sub(<constant duration>))"""
+        if not (v[0] == "ctor" and str(v[1]).endswith("Some") and len(v[2]) == 1):
+            return None
+        d_ = v[2][0]
+        if d_[0] == "call" and str(d_[1]).endswith("Duration::saturating_sub") and len(d_[2]) == 2 and \
+                not any(x[:1] in (("var",), ("field",), ("index",)) for x in hir.subterms(d_[2][1])):
+            margin_in_budget[0] = True
+            d_ = d_[2][0]
+        if d_[0] == "call" and str(d_[1]).endswith("Duration::from_millis"):
+            return d_[2][0]
         return None
     own = {"White": ("wtime", "winc"), "Black": ("btime", "binc")}
     budgets = {}
@@ -224,12 +238,15 @@ def run(ctx):
     if slept_nf is not None and slept_nf[0] == "call" and str(slept_nf[1]).endswith("Duration::saturating_sub") and len(slept_nf[2]) == 2 \
             and slept_nf[2][0][0] == "var" and slept_nf[2][0][1] in bound:
         ok4 = not any(x[:1] in (("var",), ("field",), ("index",)) for x in hir.subterms(slept_nf[2][1]))
+    if slept_nf is not None and slept_nf[0] == "var" and slept_nf[1] in bound and margin_in_budget[0]:
+        ok4 = True          # the margin was taken off where the budget was computed; the timer sleeps on the budget as it is
     adj = [n for n in lets.get("time", []) if slept_nf is not None and sym(n["init"]) == slept_nf]
     ctx.check("C13.A4", "only-a-saturating-safety-margin-is-subtracted", ok4, fn=GO, file=fn["file"], line=hir.line(adj[0]) if adj else None,
               what="after the budget is chosen it may only be reduced, with saturation", expected="<budget>.saturating_sub(<constant duration>)",
               found=slept)
     same_value = printed_nf is not None and slept_nf is not None and printed_nf == ("call", "std::time::Duration::as_millis", (slept_nf,))
-    adjusted = slept_nf is not None and slept_nf[0] == "call" and str(slept_nf[1]).endswith("Duration::saturating_sub")
+    adjusted = slept_nf is not None and ((slept_nf[0] == "call" and str(slept_nf[1]).endswith("Duration::saturating_sub")) or
+                                         (slept_nf[0] == "var" and slept_nf[1] in bound and margin_in_budget[0]))
     ctx.check("C13.A5", "announced-budget-is-the-enforced-budget", ok and same_value and adjusted, fn=GO, file=fn["file"],
               line=hir.line(info[0][0]) if info else None,
               what="the value printed as `info time`, the value the timer sleeps on must be the same adjusted budget",
@@ -256,9 +273,15 @@ def run(ctx):
                 budget_key = hir.subst(scr[-1], ren)
 
                 def under(budget, inf):
+                    # `infinite` may already be part of the budget (None when infinite): then the test sees None
+                    if budget == some_d and V is not None and case(("move_time",), "White", infinite=inf) == none_d:
+                        return ("lit", False)
                     a_ = dict(base)
                     a_[budget_key] = budget
-                    a_[INF] = ("lit", inf)
+                    a_[INF] = a_[("var", "?infinite")] = ("lit", inf)
+                    for t_ in hir.subterms(reach):       # `infinite` as a field of an options struct
+                        if t_[:1] == ("field",) and t_[-1] == "infinite":
+                            a_[t_] = ("lit", inf)
                     return hir.fold(reach, a_)
                 armed_ok = under(some_d, False) == ("lit", True) and hir.all_leaves_false(under(some_d, True)) and \
                     hir.all_leaves_false(under(none_d, False))
